@@ -284,7 +284,7 @@ func c15(c *Ctx) (*report.Result, error) {
 				if !ok {
 					continue
 				}
-				ev := ret.Results[len(ret.Results)-1]
+				ev := flow.Ret(ret)[len(ret.Results)-1]
 				fromHandler := false
 				for _, hc := range hcalls {
 					if hv, ok := hc.(*ssa.Call); ok {
@@ -369,7 +369,7 @@ func c15(c *Ctx) (*report.Result, error) {
 				if !isR {
 					continue
 				}
-				if u, isU := ret.Results[0].(*ssa.UnOp); isU && u.Op == token.NOT {
+				if u, isU := flow.Ret(ret)[0].(*ssa.UnOp); isU && u.Op == token.NOT {
 					if call, isC := u.X.(*ssa.Call); isC {
 						if cal := flow.StaticCallee(&call.Call); cal != nil && strings.HasPrefix(flow.FuncName(cal), "slices.Contains") {
 							if g, isG := flow.ResolveLoad(call.Call.Args[0]).(*ssa.UnOp); isG {
@@ -393,7 +393,7 @@ func c15(c *Ctx) (*report.Result, error) {
 				if !isR {
 					continue
 				}
-				if cb, isC := flow.ConstBool(ret.Results[0]); isC {
+				if cb, isC := flow.ConstBool(flow.Ret(ret)[0]); isC {
 					if !cb {
 						continue
 					}
@@ -412,7 +412,7 @@ func c15(c *Ctx) (*report.Result, error) {
 					}
 					continue
 				}
-				if lk, isL := ret.Results[0].(*ssa.Lookup); !isL || lk.Index != ssa.Value(f.Params[1]) {
+				if lk, isL := flow.Ret(ret)[0].(*ssa.Lookup); !isL || lk.Index != ssa.Value(f.Params[1]) {
 					ok = false
 				}
 			}
@@ -488,10 +488,10 @@ func checkPolicyWiring(c *Ctx, res *report.Result) {
 		for _, b := range f.Blocks {
 			for _, ins := range b.Instrs {
 				ret, ok := ins.(*ssa.Return)
-				if !ok || flow.IsNilConst(ret.Results[0]) {
+				if !ok || flow.IsNilConst(flow.Ret(ret)[0]) {
 					continue
 				}
-				v := flow.Strip(ret.Results[0])
+				v := flow.Strip(flow.Ret(ret)[0])
 				good := false
 				if ex, isEx := v.(*ssa.Extract); isEx {
 					if call, isC := ex.Tuple.(*ssa.Call); isC {
@@ -553,7 +553,7 @@ func checkPolicyWiring(c *Ctx, res *report.Result) {
 			}
 			for _, b := range f.Blocks {
 				for _, ins := range b.Instrs {
-					if ret, isR := ins.(*ssa.Return); isR && !flow.IsNilConst(ret.Results[0]) && ret.Results[0] != ssa.Value(srv) {
+					if ret, isR := ins.(*ssa.Return); isR && !flow.IsNilConst(flow.Ret(ret)[0]) && flow.Ret(ret)[0] != ssa.Value(srv) {
 						ok, why = false, "a server other than the one built with the options is returned"
 					}
 				}
@@ -569,11 +569,11 @@ func checkPolicyWiring(c *Ctx, res *report.Result) {
 				if !ok {
 					continue
 				}
-				if !flow.IsNilConst(ret.Results[1]) {
+				if !flow.IsNilConst(flow.Ret(ret)[1]) {
 					continue // error return
 				}
 				good := true
-				alts := flow.SliceSeqs(ret.Results[0])
+				alts := flow.SliceSeqs(flow.Ret(ret)[0])
 				for _, a := range alts {
 					u, s := false, false
 					for _, e := range a.Elems {
